@@ -130,6 +130,7 @@ func genC01(rng *rand.Rand, tier string) *sim.Plan {
 			p.Phases = append(p.Phases, subPhase(0.4))
 		}
 	}
+	maybeRedis(rng, p, 0.2)
 	return p
 }
 
